@@ -372,6 +372,7 @@ _EXTRA = {
             (A2.A14b_fallback_axis, "C03 antiparallel poses: detection with tolerance, angle test without exact pi, non-degenerate fallback axis")],
     "C04": [(C.C_return_shape, "C04 the search returns the shape its flag announces on every path (an empty search is an empty result, not an unpack error)")],
     "C05": [(C.C_roll_gate, "C05 the roll about the matched axis is applied to every match with more than two atoms")],
+    "C06": [(C.C_idx_replace, "C06.2 index tuples, positions and rotations of the matches stay parallel, so the terms of an inserted fragment are attached to the atoms of the same match")],
     "C08": [(A2.A14b_fallback_axis, "C08 reversibility needs every pose to be found again: antiparallel detection, angle test, fallback axis"),
             (C.C_roll_gate, "C08 the roll about the matched axis is applied to every match with more than two atoms")],
     "C12": [(C.C_axis_diag, "C12 np.diag(cell) is the box only under the exact orthorhombic test")],
